@@ -19,15 +19,15 @@ ID = "C14"
 META = {
     "rule": "base files covering all 10 vocabulary tags + a registered custom tag; (perm) every legal order of the <=7 lines of each base file (offset parameter before the "
     "edge that uses it); (junk) every placement of 0, 1 and 2 lines from {blank, spaces only, #comment, free text, near-miss tags VERTEX_SE2X / EDGE_SE2_XYZ / VERTEX_SE3 / "
-    "EDGE_SE3:QUATX, leading-space tag} at every position; (fmt) every numeric field of every line x 10 number formats float() accepts; (sep) separators x line endings x the "
-    "six loader entry points; (custom2) two registered custom edge types: every order of a 6-line file x both registration orders. Oracle: vf/ref/g2o.py parse of the same text; one object per vocabulary line in file order with exactly float(token), symmetric information, offsets "
+    "EDGE_SE3:QUATX, leading-space tag, comment / note lines that quote a complete PARAMS / VERTEX / EDGE line after their first character} at every position; (fmt) every numeric field of every line x 10 number formats float() accepts; (sep) separators x line endings x the "
+    "six loader entry points; (custom2) two registered custom edge types: every order of a 6-line file x both registration orders; (custom3) a registered custom type that resolves its offset through the file's PARAMS_SE3OFFSET lines: every legal order of a 7-line file. Oracle: vf/ref/g2o.py parse of the same text; one object per vocabulary line in file order with exactly float(token), symmetric information, offsets "
     "through the parameter id; warnings of logger graphslam.graph counted. non-trivial = file differs from the canonical rendering of its base (order, junk, format or separators)",
     "assumptions": [
         "well-formed files: tag at column 0, blank-separated fields, integer ids; inf/nan excluded",
         "warnings: at least one per unsupported non-blank line and at most one more per blank line (the documentation is silent on blank lines)",
         "a custom edge type's own from_g2o is harness code; what is checked is its dispatch (one object per line, in order, unaffected by other lines)",
     ],
-    "required_classes": ["duplicate_line", "huge_ids", "two_custom_types", "perm", "junk1", "junk2", "fmt", "sep", "loader", "crlf", "near_miss_tag", "custom_tag", "param_resolved"],
+    "required_classes": ["duplicate_line", "huge_ids", "two_custom_types", "perm", "junk1", "junk2", "fmt", "sep", "loader", "crlf", "near_miss_tag", "embedded_tag", "custom_type_with_parameters", "custom_tag", "param_resolved"],
     "bounds": {"quick": "all 5040 + 2520 line orders; junk <= 2 insertions into 2 base files; 10 formats x every field; 3 separators x 3 endings x 6 loaders", "thorough": "same + junk pairs on every rotation of the base files + 3 insertions of the near-miss tags"},
 }
 
@@ -62,7 +62,26 @@ class CustomPair(_Custom):
         return None
 
 
-CUSTOM = {"CUSTOM_PRIOR": (1, 2, 2), "CUSTOM_PAIR": (2, 1, 1)}
+class CustomLm3(_Custom):
+    """registered custom edge that resolves a sensor offset through the file's parameters, like EDGE_SE3_TRACKXYZ does:
+    CUSTOM_LM3 idpose idpoint paramid e0 e1 e2 I11"""
+
+    offset = None
+
+    def calc_error(self):
+        return np.array([float(np.linalg.norm(((self.vertices[0].pose + self.offset).inverse + self.vertices[1].pose) - self.estimate[1:]))])
+
+    @classmethod
+    def from_g2o(cls, line, g2o_params_or_none=None):
+        if line.startswith("CUSTOM_LM3 "):
+            t = line.split()
+            e = cls([int(t[1]), int(t[2])], np.array([[float(t[7])]]), np.array([float(x) for x in t[3:7]]))
+            e.offset = g2o_params_or_none[("PARAMS_SE3OFFSET", int(t[3]))].value
+            return e
+        return None
+
+
+CUSTOM = {"CUSTOM_PRIOR": (1, 2, 2), "CUSTOM_PAIR": (2, 1, 1), "CUSTOM_LM3": (2, 4, 1)}
 CUSTOM_LINES = [
     ["VERTEX_SE2", "0", "0.1", "-0.2", "0.3"],
     ["VERTEX_XY", "2", "4.0", "-5.5"],
@@ -75,6 +94,28 @@ CUSTOM_LINES = [
 Q_A = ["0.18257418583505536", "-0.3651483716701107", "0.5477225575051661", "0.7302967433402214"]
 Q_B = ["-0.5", "0.5", "-0.5", "-0.5"]
 Q_UNNORM = ["0.2", "-0.4", "0.6", "-0.8"]  # measurement quaternion: not unit, w < 0 -> the reader renormalises
+
+
+def custom3_lines():
+    return [
+        ["PARAMS_SE3OFFSET", "7", "0.1", "0.2", "0.3"] + Q_B,
+        ["PARAMS_SE3OFFSET", "2", "-0.3", "0.0", "0.6"] + Q_A,
+        ["VERTEX_SE3:QUAT", "10", "1.0", "-2.0", "3.0"] + Q_A,
+        ["VERTEX_TRACKXYZ", "7", "9.0", "8.0", "-7.0"],
+        ["CUSTOM_LM3", "10", "7", "7", "1.0", "2.0", "3.0", "2.5"],
+        ["CUSTOM_LM3", "10", "7", "2", "0.5", "0.25", "-1.0", "1.5"],
+        ["EDGE_SE3_TRACKXYZ", "10", "7", "2", "1.0", "2.0", "3.0", "1.5", "0.25", "0.125", "2.5", "0.375", "3.5"],
+    ]
+
+
+def legal3(lines):
+    seen = set()
+    for l in lines:
+        if l[0] == "PARAMS_SE3OFFSET":
+            seen.add(l[1])
+        elif l[0] in ("CUSTOM_LM3", "EDGE_SE3_TRACKXYZ") and l[3] not in seen:
+            return False
+    return True
 
 
 def base_files():
@@ -110,6 +151,11 @@ JUNK = [
     ("near_miss", "VERTEX_SE3 97 1 2 3 0 0 0 1"),
     ("near_miss", "EDGE_SE3:QUATX 10 -4 1 2 3 0 0 0 1"),
     ("near_miss", "FIX 0"),
+    # lines that merely QUOTE a vocabulary line after their first character (comments, notes): still not part of the vocabulary
+    ("embedded", "# old calibration was: PARAMS_SE3OFFSET 3 9 9 9 0 0 0 1"),
+    ("embedded", "# PARAMS_SE2OFFSET 0 1 2 3"),
+    ("embedded", "note: VERTEX_SE2 55 1 2 3"),
+    ("embedded", "#EDGE_SE2_XY 1 2 0.1 0.1 1 0 1"),
     ("dup_line", None),  # an exact duplicate of the first EDGE line of the base file: two lines, two objects
 ]
 BIG_IDS = ["9007199254740993", "-9007199254740993", "9223372036854775807", "4611686018427387909", "+17", "0042"]
@@ -145,6 +191,8 @@ def chunks(tier, seed):
         out.append(("sep", b, 0))
     out.append(("empty", "b1", 0))
     out.append(("custom2", "b1", 0))
+    for first in range(7):
+        out.append(("custom3", "b2", first))
     out.append(("bigid", "b1", 0))
     out.append(("bigid", "b2", 0))
     return out
@@ -207,6 +255,16 @@ def run_chunk(chunk, tier, seed):
             for order in itertools.permutations(range(len(CUSTOM_LINES))):
                 for reg in ("AB", "BA"):
                     _do(acc, {"t": "custom2", "base": b, "order": list(order), "reg": reg}, ctx)
+        elif typ == "custom3":
+            # a registered custom type that needs the file's offset parameters: every legal order of a 7-line file
+            c3 = custom3_lines()
+            rest = [i for i in range(7) if i != k]
+            for p in itertools.permutations(rest):
+                order = [k] + list(p)
+                if not legal3([c3[i] for i in order]):
+                    acc.exclude("offset parameter after the edge that uses it")
+                    continue
+                _do(acc, {"t": "custom3", "base": b, "order": order}, ctx)
         elif typ == "empty":
             for j in range(len(JUNK)):
                 for j2 in range(len(JUNK)):
@@ -268,6 +326,8 @@ def text_of(case):
             lines.insert(pos, JUNK[j][1])
             if JUNK[j][0] == "near_miss":
                 classes.append("near_miss_tag")
+            if JUNK[j][0] == "embedded":
+                classes.append("embedded_tag")
     elif t == "fmt":
         lines[case["line"]][case["field"]] = case["fmt"]
     elif t == "sep":
@@ -291,6 +351,10 @@ def text_of(case):
     elif t == "custom2":
         lines = [list(CUSTOM_LINES[k]) for k in case["order"]]
         classes.append("two_custom_types")
+    elif t == "custom3":
+        c3 = custom3_lines()
+        lines = [list(c3[k]) for k in case["order"]]
+        classes.append("custom_type_with_parameters")
     return render(lines, **kw), classes
 
 
@@ -370,7 +434,7 @@ def _eval_unguarded(case, ctx):
     msgs = []
     _prelude(ctx)
     text, classes = text_of(case)
-    has_custom = "CUSTOM_PRIOR" in text
+    has_custom = "CUSTOM_PRIOR" in text or "CUSTOM_LM3" in text
     if has_custom:
         classes.append("custom_tag")
     if "EDGE_SE3_TRACKXYZ" in text:
@@ -394,6 +458,8 @@ def _eval_unguarded(case, ctx):
             ctypes = None
             if has_custom:
                 ctypes = [CustomPrior, CustomPair] if case.get("reg", "AB") == "AB" else [CustomPair, CustomPrior]
+                if case["t"] == "custom3":
+                    ctypes = [CustomPrior, CustomLm3]
             g = _load(path, loader, ctypes)
         except Exception as ex:
             return ["loading a well-formed file raised %s: %s\n%s" % (type(ex).__name__, ex, text)], {"classes": classes, "nobj": "raise", "nwarn": "-"}
@@ -401,7 +467,16 @@ def _eval_unguarded(case, ctx):
         lg.removeHandler(cap)
         lg.propagate = old_prop
     got = g2oio.describe_graph(g)
-    g2oio.compare(got, ref, msgs, custom_map={"CUSTOM_PRIOR": "CustomPrior", "CUSTOM_PAIR": "CustomPair"})
+    g2oio.compare(got, ref, msgs, custom_map={"CUSTOM_PRIOR": "CustomPrior", "CUSTOM_PAIR": "CustomPair", "CUSTOM_LM3": "CustomLm3"})
+    if case["t"] == "custom3" and not msgs:
+        # each custom landmark edge received the offset of the parameter id on ITS line
+        for e in I.graph_edges(g):
+            if type(e).__name__ == "CustomLm3":
+                pid = int(e.estimate[0])
+                want = ref["params"][("PARAMS_SE3OFFSET", pid)]
+                gotoff = None if e.offset is None else I.comps(e.offset)
+                if gotoff is None or max(abs(a - b) for a, b in zip(gotoff, want)) > 1e-15:
+                    msgs.append("custom edge referring to offset parameter %d received offset %r, the file says %r" % (pid, gotoff, want))
     nw = len(cap.records)
     lo, hi = len(ref["unsupported"]), len(ref["unsupported"]) + ref["blank"]
     if not lo <= nw <= hi:
